@@ -1,4 +1,7 @@
 \* C05 thorough tier: thorough: all pairs of derived types of depth <= 3 over 5 leaves
+\* Devs: deviations of the shipped code still open. Fixed in /repo and therefore removed (a regression is a VIOLATION):
+\* CondSameTypeNoConversion (ba99903), ConvertKeepsCompatible + SizeofSeesBitfield (4c7c95a), DerefDecayedArrayDropsQual (13d3f3d),
+\* UacKeepsWideEnum (60245bf)
 SPECIFICATION Spec
 CONSTANTS
   LeafNames = {"int", "uint", "eu", "S1", "void"}
@@ -8,7 +11,7 @@ CONSTANTS
   P1Names = {"int", "uint", "eu", "cint", "pint", "pcint", "a2int", "a2cint", "fvi"}
   P2Names = {"int", "pint"}
   FnRetNames = {"int", "uint", "void", "S1"}
-  Devs = {"CondSameTypeNoConversion", "CompositeIsFirst", "UacKeepsWideEnum", "SizeofSeesBitfield", "ConvertKeepsCompatible", "ArrayQualOnArrayType", "DerefDecayedArrayDropsQual"}
+  Devs = {"CompositeIsFirst", "ArrayQualOnArrayType"}
   Emit = TRUE
   EmitLeafNames = {"int", "eu"}
 INVARIANTS Inv_Refines Inv_Reflexive Inv_Emit
